@@ -135,6 +135,30 @@ pub fn replay(cases: &str, verdicts: &str) {
                 v.check(okm == Some(true), "min/max/argmin/argmax", &class, &c, json!(okm));
             }
         }
+        // the same BUFFER again after an interior value was edited in place (first and last value, length and address as before): every
+        // statistic equals what a fresh copy of the edited data gives, bit for bit
+        if base.len() >= 3 {
+            let mut buf = base.clone(); let yb: Vec<f64> = base.iter().rev().cloned().collect();
+            let stats = |d: &[f64]| vec![mean(d), welford_mean(d), var(d), sample_var(d), covariance(d, &yb), sample_covariance(d, &yb), min(d), max(d)];
+            let before = guard(|| stats(&buf));
+            buf[1] += 3.0; let fresh1 = buf.clone();
+            let after = guard(|| stats(&buf));
+            let reference = guard(|| stats(&fresh1));
+            let same = match (&after, &reference) { (Some(a), Some(b)) => a.iter().zip(b).all(|(p, q)| p.to_bits() == q.to_bits() || (p.is_nan() && q.is_nan())), _ => false };
+            let mdef = fresh1.iter().sum::<f64>() / fresh1.len() as f64;
+            let okm = after.as_ref().map(|a| (a[0] - mdef).abs() <= 1e-12 * (1.0 + mdef.abs())).unwrap_or(false);
+            v.check(same && okm && before.is_some(), "statistics", "same buffer edited in place", &json!({"x": fjs(&base)}), json!({"after": after.as_ref().map(|a| fjs(a)), "mean_by_definition": mdef}));
+            // ... and each statistic on its own, called immediately before and immediately after the edit (nothing else in between)
+            let fns: [(&str, fn(&[f64]) -> f64); 6] = [("mean", mean), ("welford_mean", welford_mean), ("var", var), ("sample_var", sample_var), ("std", std), ("sample_std", sample_std)];
+            for (name, f) in fns.iter() {
+                if base.len() < 2 && name.starts_with("sample") { continue; }
+                let mut b2 = base.clone();
+                let r = guard(|| { let _ = f(&b2); b2[1] -= 5.0; let got = f(&b2); let want = f(&b2.clone()); (got, want) });
+                let ok1 = r.map(|(g, w)| g.to_bits() == w.to_bits() || (g.is_nan() && w.is_nan())).unwrap_or(false);
+                let okd = if *name == "mean" { r.map(|(g, _)| { let md = (base.iter().sum::<f64>() - 5.0) / base.len() as f64; (g - md).abs() <= 1e-12 * (1.0 + md.abs()) }).unwrap_or(false) } else { true };
+                v.check(ok1 && okd, name, "called before and after an in-place edit", &json!({"x": fjs(&base)}), json!(r.map(|(g, w)| [g, w])));
+            }
+        }
         // signed zeros: -0.0 in place of 0 changes nothing numerically
         if base.iter().any(|t| *t == 0.0) {
             let x: Vec<f64> = base.iter().map(|t| if *t == 0.0 { -0.0 } else { *t }).collect();
